@@ -536,6 +536,25 @@ let run_pw (f : string array) : string =
     let got = pm_fields typ fl bytes in
     hex_of_bytes bytes ^ " " ^ (if got = want then "1" else "0")
 
+(* ---- C08 PA / PD cases: gmtls/auth.go decision logic ----------------------------------------------------------- *)
+let run_pa (pk : string) (peer : string) (ours : string) (vers : string) : string =
+  let k = match pk with "rsa" -> PK_RSA | "ecdsa" -> PK_ECDSA | "sm2" -> PK_SM2 | _ -> PK_Other in
+  match pickSignatureAlgorithm k (u16list_of peer) (u16list_of ours) (hexn vers) with
+  | Ok ((alg, st), h) -> Printf.sprintf "ok %s %d %d" (hex4 alg) (int_of_n st) (int_of_n h)
+  | Err _ -> "err" | Panic -> "PANIC" | Hang -> "HANG"
+
+let show_digest = function
+  | D_MD5SHA1 -> "md5sha1" | D_SHA1 -> "sha1" | D_SHA256 -> "sha256" | D_SHA384 -> "sha384" | D_SHA512 -> "sha512"
+  | D_SM3 -> "sm3" | D_SSL30 -> "ssl30"
+
+let run_pd (f : string array) : string =
+  let out o = match o with Ok d -> show_digest d | Err _ -> "err" | Panic -> "PANIC" | Hang -> "HANG" in
+  match f.(2) with
+  | "cc" -> out (hashForClientCertificate (hexn f.(3)) (n (int_of_string f.(5))) (n (int_of_string f.(6))))
+  | "skx" -> out (hashForServerKeyExchange (hexn f.(3)) (n (int_of_string f.(5))) (n (int_of_string f.(6))))
+  | "gmcc" -> show_digest gm_client_certificate_verify_digest
+  | _ -> "SKIP"
+
 let handle (f : string array) : string =
   match f.(0) with
   | "S" -> run_script f.(2) f.(3) f.(4)
@@ -546,6 +565,8 @@ let handle (f : string array) : string =
   | "AS" -> run_as f.(2) f.(3) f.(4)
   | "AC" -> run_ac f.(2) f.(3) f.(4)
   | "AM" -> run_am f.(2) f.(3) f.(4) f.(5) f.(6) f.(8)
+  | "PA" -> run_pa f.(2) f.(3) f.(4) f.(5)
+  | "PD" -> run_pd f
   | "PW" -> run_pw f
   | "PM" -> run_pm f.(2) f.(3) (if Array.length f > 4 then f.(4) else "-")
   | "PK" ->
